@@ -32,6 +32,20 @@ CONFIG = {
                 'csv theorems carry the extra hypothesis that the text has no NUL byte inside (files are NUL-free in C11_pipeline)'],
 }
 
+# the same harness source built a second time WITHOUT sanitizers and linked with the real src/data.cc + src/io.cc:
+# Parser<I,D>::Create (factory registry, URI arguments, thread count, ThreadedParser wrapper) on real files
+CONFIG['extra'] = [{
+    'driver': 'Parse',
+    'harness': {'name': 'parsers-create',
+                'srcs': ['harness/h_parsers.cc', '$REPO/src/data.cc', '$REPO/src/io.cc', '$REPO/src/io/local_filesys.cc',
+                         '$REPO/src/io/filesys.cc', '$REPO/src/io/line_split.cc', '$REPO/src/io/recordio_split.cc',
+                         '$REPO/src/io/indexed_recordio_split.cc', '$REPO/src/io/input_split_base.cc', '$REPO/src/recordio.cc'],
+                'flags': ['-fopenmp', '-DVH_WITH_DATACC=1', '-DDMLC_CORE_VERIF_BUFFER_WORDS=4'],
+                'sanitize': False,
+                'args': ['--prop', 'C11'],
+                'timeout': 600},
+}]
+
 MANIFEST = {
     'text': 'Lean 4 theorems over an executable model of the libsvm / libfm / csv ParseBlock bodies, FillData thread slicing '
             'and ParserImpl::Next, generic in the numeric conversion: a block parses to the concatenation of its lines parsed '
